@@ -190,6 +190,14 @@ theorem address_string_roundtrip_base58 (regs : List (List UInt8)) (H : List UIn
       decodeAddress regs H validPK ((Addr.sh h net.sh).string H) net = .ok (.sh h net.sh)) :=
   Lemmas.decodeAddress_string_b58 regs H hH validPK net hne h hl
 
+/-- encode → decode for pay-to-pubkey addresses (compressed 02/03 and uncompressed 04 serializations; hybrid keys are
+re-serialized uncompressed by the constructor): `String()`, the hex of the key, decodes to the same address. -/
+theorem address_string_roundtrip_pubkey (regs : List (List UInt8)) (H : List UInt8 → List UInt8)
+    (validPK : List UInt8 → Bool) (net : Net) (ser : List UInt8) (hwf : (Addr.pk ser net.pkh).wf = true)
+    (hv : validPK ser = true) (hs : segwitPrefix regs (hexEncode ser) = none) :
+    decodeAddress regs H validPK ((Addr.pk ser net.pkh).string H) net = .ok (.pk ser net.pkh) :=
+  Lemmas.decodeAddress_string_pk regs H validPK net ser hwf hv hs
+
 /-- decode → encode: a decoded address prints as the input string (lower-cased for bech32 forms). Together with
 the bad-checksum / pairing / case rules above: a string at any edit distance from a valid one is either rejected
 or denotes an address whose encoding is that very string — never silently the original address. -/
@@ -336,6 +344,10 @@ theorem taproot_every_leaf_has_proof (HL : UInt8 → List UInt8 → List UInt8)
 theorem taproot_assemble_keeps_leaves (ls : List TapTree) (t : TapTree) (h : assembleTree ls = some t) :
     (Lemmas.leavesOf t).Perm (Lemmas.leavesOfList ls) :=
   Lemmas.assembleTree_leaves ls t h
+
+/-- … and a tree is built for every non-empty list of leaves -/
+theorem taproot_assemble_total (ls : List TapTree) (h : ls ≠ []) : ∃ t, assembleTree ls = some t :=
+  Lemmas.assembleTree_total ls h
 
 example : (assembleTree [.leaf 0 0xc0 [0x51], .leaf 1 0xc0 [0x52], .leaf 2 0xc0 [0x51]]).isSome = true := by decide
 
